@@ -179,6 +179,8 @@ CHECKS = {
 
 # layers added after the per-property texts above were written (appended to text / technique)
 ADDED = {
+ "C10": ("; the code paths of the build without 128-bit integers / native-endian loads modelled and proved: radix-2^25.5 field arithmetic (re-transcribed from the source every run), poly1305_donna32, byte-shift load / store fallbacks",
+         " For the build without 128-bit integers the 25.5-bit field code (no signed overflow under the proved bounds; = GF(2^255-19); X25519 over it = RFC 7748 = X25519 over the 51-bit code) and poly1305_donna32 (for 32- and 64-bit unsigned long; = spec = donna64) are modelled and proved, and the byte-shift load / store fallbacks of common.h are proved equal to the memcpy forms, so the existing C-structured models speak for the portable build as well."),
  "C01": ("; portable AEGIS-128L/256 code (generic *_common.h + table-based software AES round) modelled statement by statement and proved equal to the AEGIS specification for every length (Properties/C01Aegis.lean)",
          " The portable AEGIS code is modelled in the C's structure (state update, absorb / enc / dec / declast loops, mac, wrappers, the strided constant-time T-table AES round) and proved equal to Spec AEGIS for every key, nonce, AD and message length, with the round trip; the driver runs AEGIS through this model; the AES-NI instantiation of the same generic code (AESENC defined through the FIPS 197 round and validated against the CPU on every run) is proved equal to the specification and to the portable build (C01AegisAesni)."),
  "C02": ("; AEGIS decrypt verdict / failure-output theorems over the C-structured model",
